@@ -212,10 +212,18 @@ class Ref:
                     v = v + np.asarray(l.vals, dtype=float)
                 v = v / self.dt
             else:
+                from atomica.model import Characteristic
+
                 x = self.var(pop, name)
-                if x.vals is None:
-                    raise KeyError("%s was not recorded" % name)
-                v = np.array(x.vals, dtype=float)
+                if isinstance(x, Characteristic) and x.denominator is None:
+                    # a characteristic without denominator IS the sum of its member compartments: summed here, not read back
+                    v = np.zeros(self.t.shape)
+                    for comp in x.get_included_comps():  # nested characteristics flattened to compartments
+                        v = v + np.asarray(comp.vals, dtype=float)
+                else:
+                    if x.vals is None:
+                        raise KeyError("%s was not recorded" % name)
+                    v = np.array(x.vals, dtype=float)
             self._cache[key] = v
         return self._cache[key].copy()
 
@@ -384,6 +392,10 @@ def digest(res):
                 out[k + (n[k], "bins")] = _h(l._vals)
     for k, v in (getattr(m, "interactions", None) or {}).items():
         out[("interaction", k)] = _h(v)
+    cache = getattr(m, "_program_cache", None) or {}
+    for part in ("capacities", "prop_coverage"):
+        for k, v in (cache.get(part) or {}).items():
+            out[("program_cache", part, k)] = _h(v)
     return out
 
 
